@@ -41,7 +41,7 @@ def geometry(rng, kind=None, want=None):
         table = [t for t in table if t[0] in want]
     return rng.choice(table)
 
-def build_image(rng, geo, populate=1, free_left=None, dirty_free=0, second_partition=False, full_root=False, big_dir=False):
+def build_image(rng, geo, populate=1, free_left=None, dirty_free=0, second_partition=False, full_root=False, big_dir=False, exact_dir=False, ensure_big=False):
     """returns (Image, meta) ; meta: tree description for the generators"""
     name, kw = geo
     img = fatimg.Image()
@@ -57,6 +57,9 @@ def build_image(rng, geo, populate=1, free_left=None, dirty_free=0, second_parti
                               lfn=("long name %d.txt" % i) if rng.chance(1, 3) else None,
                               attr=0x21 if (populate > 1 and i == 1) else 0x20)
             meta["files"]["/" + nm] = node
+        if ensure_big:
+            node = v.add_file(v.root, "BIGGER.BIN", bytes(range(251)) * (v.spc * 9), scatter=1, rng=rng)
+            meta["files"]["/BIGGER.BIN"] = node
         if rng.chance(2, 3):
             v.fill_dir_with_deleted(v.root, 1 + rng.below(3))
         d = v.add_dir(v.root, "SUB", lfn="Sub Directory" if rng.chance(1, 2) else None)
@@ -72,6 +75,14 @@ def build_image(rng, geo, populate=1, free_left=None, dirty_free=0, second_parti
             v.add_file(d2, "LEAF.TXT", b"leaf")
         if rng.chance(1, 2):
             v.add_label_entry(v.root, b"MYLABEL    ")
+        if exact_dir:
+            # every cluster of SUB (and of a FAT32 root) exactly full: the next create must grow the directory
+            i = 0
+            while getattr(d, "_used", 0) % (16 * v.spc) != 0:
+                v.add_file(d, "P%d.P" % i, b""); i += 1
+            if kw["fat32"]:
+                while getattr(v.root, "_used", 0) % (16 * v.spc) != 0:
+                    v.add_file(v.root, "Q%d.Q" % i, b""); i += 1
     if full_root and not kw["fat32"]:
         used = getattr(v.root, "_used", 0)
         for i in range(v.root_entries - used):
